@@ -6,64 +6,98 @@ import (
 	"bsim/model"
 )
 
-func isItemField(f string) bool { return strings.HasPrefix(f, "items.") }
+// arrayPath is the chain of nested arrays a field lives in: "kw" -> [], "items.color" -> [items],
+// "items.parts.code" -> [items parts], "extras.kind" -> [extras].
+func arrayPath(field string) []string {
+	switch {
+	case strings.HasPrefix(field, "items.parts."):
+		return []string{"items", "parts"}
+	case strings.HasPrefix(field, "items."):
+		return []string{"items"}
+	case strings.HasPrefix(field, "extras."):
+		return []string{"extras"}
+	}
+	return nil
+}
 
-// onlyItemFields reports whether every leaf of the tree addresses a field of the nested array.
-func (q Q) onlyItemFields() bool {
-	kids := 0
-	for _, l := range [][]Q{q.Sub, q.Must, q.Shd, q.Not} {
-		for _, c := range l {
-			kids++
-			if !c.onlyItemFields() {
-				return false
-			}
+func isItemField(f string) bool { return len(arrayPath(f)) > 0 }
+
+func (q Q) children() []Q {
+	var out []Q
+	out = append(out, q.Sub...)
+	out = append(out, q.Must...)
+	out = append(out, q.Shd...)
+	out = append(out, q.Not...)
+	return out
+}
+
+// commonPath is the longest array path shared by every leaf of the tree; ok is false when some leaf addresses no
+// field at all (match-all, match-none, doc ids), which pins the tree to the parent document.
+func (q Q) commonPath() (path []string, ok bool) {
+	kids := q.children()
+	if len(kids) == 0 {
+		if q.F == "" {
+			return nil, false
+		}
+		return arrayPath(q.F), true
+	}
+	first := true
+	for _, c := range kids {
+		p, cok := c.commonPath()
+		if !cok {
+			return nil, false
+		}
+		if first {
+			path, first = p, false
+			continue
+		}
+		n := 0
+		for n < len(path) && n < len(p) && path[n] == p[n] {
+			n++
+		}
+		path = path[:n]
+	}
+	return path, true
+}
+
+// descend calls f on every node reached from n by following the array names in rel (existentially).
+func descend(n *EvalDoc, rel []string, f func(*EvalDoc) bool) bool {
+	if len(rel) == 0 {
+		return f(n)
+	}
+	for _, k := range n.Kids[rel[0]] {
+		if descend(k, rel[1:], f) {
+			return true
 		}
 	}
-	if kids == 0 {
-		return isItemField(q.F)
-	}
-	return true
+	return false
 }
 
-// nestedPure reports whether q is a conjunction whose conjuncts all address (only) fields of the nested array: one
-// array element has to satisfy all of them.
-func (q Q) nestedPure() bool {
-	return q.T == "conj" && len(q.Sub) > 0 && q.onlyItemFields()
-}
-
-// EvalNested evaluates q on a document whose "items" array is mapped as nested: a conjunction whose conjuncts all
-// address fields of the array needs ONE element satisfying all of them; everything else combines per parent.
-func (q Q) EvalNested(e *EvalDoc, cx *Ctx) bool {
+// evalAt evaluates q inside the context node n, which sits at array path at. A conjunction needs ONE node at the
+// deepest array path common to all its leaves that satisfies every conjunct; every other composition, and every
+// leaf, is existential below n.
+func (q Q) evalAt(n *EvalDoc, at []string, root bool, cx *Ctx) bool {
 	switch q.T {
 	case "conj":
-		if q.nestedPure() {
-			for _, it := range e.Items {
-				all := true
-				for _, c := range q.Sub {
-					if !c.Eval(it, cx) {
-						all = false
-						break
-					}
-				}
-				if all {
-					return true
-				}
-			}
-			return false
-		}
 		if len(q.Sub) == 0 {
 			return false
 		}
-		for _, c := range q.Sub {
-			if !c.EvalNested(e, cx) {
-				return false
-			}
+		cp, ok := q.commonPath()
+		if !ok || len(cp) < len(at) {
+			cp = at
 		}
-		return true
+		return descend(n, cp[len(at):], func(m *EvalDoc) bool {
+			for _, c := range q.Sub {
+				if !c.evalAt(m, cp, root && len(cp) == 0, cx) {
+					return false
+				}
+			}
+			return true
+		})
 	case "disj":
 		cnt := 0
 		for _, c := range q.Sub {
-			if c.EvalNested(e, cx) {
+			if c.evalAt(n, at, root, cx) {
 				cnt++
 			}
 		}
@@ -74,19 +108,19 @@ func (q Q) EvalNested(e *EvalDoc, cx *Ctx) bool {
 			return false
 		}
 		for _, c := range q.Not {
-			if c.EvalNested(e, cx) {
+			if c.evalAt(n, at, root, cx) {
 				return false
 			}
 		}
 		shouldCnt := 0
 		for _, c := range q.Shd {
-			if c.EvalNested(e, cx) {
+			if c.evalAt(n, at, root, cx) {
 				shouldCnt++
 			}
 		}
 		if hasM {
 			for _, c := range q.Must {
-				if !c.EvalNested(e, cx) {
+				if !c.evalAt(n, at, root, cx) {
 					return false
 				}
 			}
@@ -97,11 +131,23 @@ func (q Q) EvalNested(e *EvalDoc, cx *Ctx) bool {
 		}
 		return true
 	}
-	return q.Eval(e, cx)
+	// a leaf: some node below n at the leaf's own array path satisfies it. At the root the flattened view of the
+	// parent document answers the same question directly.
+	if root {
+		return q.Eval(n, cx)
+	}
+	lp := arrayPath(q.F)
+	if len(lp) < len(at) {
+		return false // a leaf outside this context (cannot happen for the common path of a conjunction)
+	}
+	return descend(n, lp[len(at):], func(m *EvalDoc) bool { return q.Eval(m, cx) })
 }
 
+// EvalNested evaluates q on a document whose arrays of objects are mapped as nested.
+func (q Q) EvalNested(e *EvalDoc, cx *Ctx) bool { return q.evalAt(e, nil, true, cx) }
+
 func genItemLeaf(r R) Q {
-	switch r.Intn(4) {
+	switch r.Intn(6) {
 	case 0, 1:
 		return Q{T: "term", F: "items.color", S: pick(r, model.Kws)}
 	case 2:
@@ -111,13 +157,15 @@ func genItemLeaf(r R) Q {
 		q.Max = fp(lo + float64(1+r.Intn(2)))
 		q.IMin, q.IMax = bp(true), bp(r.Intn(2) == 0)
 		return q
-	default:
+	case 3:
 		return Q{T: "term", F: "items.note", S: pick(r, model.Vocab)}
+	default:
+		return Q{T: "term", F: "items.parts.code", S: pick(r, model.Codes)}
 	}
 }
 
 func genTopLeaf(r R, ids []string) Q {
-	switch r.Intn(5) {
+	switch r.Intn(7) {
 	case 0:
 		return Q{T: "term", F: "kw", S: pick(r, model.Kws)}
 	case 1:
@@ -126,6 +174,8 @@ func genTopLeaf(r R, ids []string) Q {
 		return Q{T: "numrange", F: "num", Min: fp(float64(r.Intn(6) - 3)), Max: fp(float64(3 + r.Intn(6)))}
 	case 3:
 		return Q{T: "term", F: "tags", S: pick(r, model.TagVals)}
+	case 4, 5:
+		return Q{T: "term", F: "extras.kind", S: pick(r, model.Kinds)} // a sibling array
 	default:
 		return Q{T: "all"}
 	}
@@ -140,7 +190,7 @@ func genNestedConj(r R) Q {
 	return q
 }
 
-// GenNested draws queries over the nested array and top-level fields for C20.
+// GenNested draws queries over the nested arrays and top-level fields for C20.
 func GenNested(r R, depth int, ids []string) Q {
 	atom := func() Q {
 		switch r.Intn(5) {
@@ -169,14 +219,10 @@ func GenNested(r R, depth int, ids []string) Q {
 		}
 		return out
 	}
-	switch r.Intn(3) {
-	case 0:
-		q := Q{T: "conj", Sub: subs(2, 3)}
-		if q.nestedPure() {
-			q.Sub = append(q.Sub, genTopLeaf(r, ids))
-		}
-		return q
-	case 1:
+	switch r.Intn(6) {
+	case 0, 1, 2:
+		return Q{T: "conj", Sub: subs(2, 3)}
+	case 3, 4:
 		s := subs(1, 3)
 		return Q{T: "disj", Sub: s, DMin: r.Intn(len(s) + 1)}
 	default:
@@ -195,16 +241,14 @@ func GenNested(r R, depth int, ids []string) Q {
 	}
 }
 
-// HasItemField reports whether the tree has a leaf on a field of the nested array.
+// HasItemField reports whether the tree has a leaf on a field of a nested array.
 func (q Q) HasItemField() bool {
 	if isItemField(q.F) {
 		return true
 	}
-	for _, l := range [][]Q{q.Sub, q.Must, q.Shd, q.Not} {
-		for _, c := range l {
-			if c.HasItemField() {
-				return true
-			}
+	for _, c := range q.children() {
+		if c.HasItemField() {
+			return true
 		}
 	}
 	return false
@@ -214,11 +258,9 @@ func (q Q) anyNode(pred func(Q) bool) bool {
 	if pred(q) {
 		return true
 	}
-	for _, l := range [][]Q{q.Sub, q.Must, q.Shd, q.Not} {
-		for _, c := range l {
-			if c.anyNode(pred) {
-				return true
-			}
+	for _, c := range q.children() {
+		if c.anyNode(pred) {
+			return true
 		}
 	}
 	return false
